@@ -17,6 +17,9 @@ using real::g_log;
 using real::g_activity;
 
 namespace {
+// texts are kept with every NUL byte made visible (an argument may be a string with an embedded NUL): what follows it stays
+// part of the text for every later comparison
+std::string visible_nul(const std::string& t) { std::string o; for (char c : t) { if (c == '\0') o += "\\0"; else o += c; } return o; }
 
 using trompeloeil::deathwatched;
 using trompeloeil::expectation;
@@ -27,7 +30,7 @@ struct RecTracer : trompeloeil::tracer {
   int id;
   explicit RecTracer(int i) : id(i) {}
   void trace(char const* file, unsigned long line, std::string const& call) override {
-    g_log.traces.push_back(RTrace{id, file ? file : "", line, call});
+    g_log.traces.push_back(RTrace{id, file ? file : "", line, visible_nul(call)});
   }
 };
 
@@ -66,7 +69,7 @@ long invoke(M& m, int func, int a0, int a1) {
     case F_f: return m.f(a0);
     case F_h: return m.h(a0);
     case F_ovi: return m.ov(a0);
-    case F_ovs: return m.ov(std::to_string(a0));
+    case F_ovs: return m.ov(a0 == 77 ? std::string("77\0z", 4) : std::to_string(a0));   // 77: a string with an embedded NUL (reports and trace records must go on after it)
     case F_v: m.v(a0); return 0;
     case F_cf: return static_cast<M const&>(m).cf(a0);
     case F_g: return m.g(a0, a1);
@@ -79,7 +82,7 @@ long invoke(M& m, int func, int a0, int a1) {
 void install_reporter(int gen, bool with_ok, trompeloeil::reporter_func* old_r, trompeloeil::ok_reporter_func* old_ok) {
   auto r = [gen](severity s, char const* file, unsigned long line, std::string const& msg) {
     bool fatal = s == severity::fatal;
-    g_log.reports.push_back(RReport{fatal, file ? file : "", line, msg, g_activity, gen});
+    g_log.reports.push_back(RReport{fatal, file ? file : "", line, visible_nul(msg), g_activity, gen});
     // conforming reporter: a fatal report must not return; never throw out of a destructor
     if (fatal && (g_activity == ACT_CALL || g_activity == ACT_CREATE)) throw fatal_report{};
   };
@@ -423,7 +426,7 @@ void drop_tracer(int k) { drain_stream_tracers(); S->tracers.erase(S->tracers.be
 void drain_stream_tracers() {
   for (auto& t : S->tracers) {
     if (!t.st) continue;
-    std::string all = t.st->os.str();
+    std::string all = visible_nul(t.st->os.str());
     if (all.empty()) continue;
     t.st->os.str("");
     // records: "<file>:<line>\n<text>\n"; a header line is a known site file followed by ':' and digits
